@@ -13,8 +13,9 @@ import sys
 import time
 
 HERE = os.path.dirname(os.path.dirname(os.path.abspath(__file__)))
-if "/repo" not in sys.path:
-    sys.path.insert(0, "/repo")
+from mc.core.paths import REPO  # noqa: E402
+if REPO not in sys.path:
+    sys.path.insert(0, REPO)
 
 from mc.core import findings as findings_mod  # noqa: E402
 from mc.core.par import HarnessError  # noqa: E402
